@@ -48,5 +48,21 @@ for name, tr in (("session: as recorded", s_good), ("session: merge lost a non-r
     tf.write_text(json.dumps(tr))
     r = vlib.run_tlc("Trace_Eyecite", "Trace_Eyecite.cfg", env={"TRACE_FILE": str(tf)}); tf.unlink()
     out[name] = "accepted" if '<<"DONE", 1>>' in r.out else "rejected (session not consumed: stops at event %s)" % max([int(x) for x in re.findall(r'<<"AT", 1, (\d+)>>', r.out)] or [0])
+# Meta (values of the metadata): corrupt one observed value / one logged group end / the observation of the citation
+# a parallel citation inherits from
+mdoc = "Foo v. Bar, 1 U.S. 1, 5 (1999) (holding x), 2 S. Ct. 3. Baz, 4 F.2d 6, 7 (2d Cir. 1950). Id. at 9 (quoting y)."
+mobs = vlib.impl_map("drv_extract", "run_meta", [{"text": mdoc}], env={vlib.GUARD: "1"})
+hi = vlib.impl_run("drv_extract", "highest_year", {})
+m_good = copy.deepcopy(mobs)
+m_bad1 = copy.deepcopy(mobs); m_bad1[0]["cites"][0]["obs"]["paren"] = m_bad1[0]["cites"][0]["obs"]["paren"] + [33]
+m_bad2 = copy.deepcopy(mobs); m_bad2[0]["cites"][0]["fwd"]["g"]["year"][1] -= 1
+m_bad3 = copy.deepcopy(mobs); m_bad3[0]["cites"][0]["obs"]["defendant"] = [90, 101, 100]      # what the parallel citation inherits from
+mobs2 = vlib.impl_map("drv_extract", "run_meta", [{"text": "Nobelman at 332, 113 S.Ct. 2106 (1993)."}], env={vlib.GUARD: "1"})
+m_bad4 = copy.deepcopy(mobs2); m_bad4[0]["cites"][0]["back"]["present"] = False                 # add_pre_citation "was not called"
+for name, tr in (("meta: as recorded", m_good), ("meta: one character added to an observed parenthetical", m_bad1),
+                 ("meta: logged end of the year group -1", m_bad2), ("meta: observed defendant of the first of two parallel citations changed", m_bad3),
+                 ("meta: pre-citation event dropped", m_bad4)):
+    _, drifts = tlc_judge("Trace_Meta", "Trace_Meta.cfg", tr, ev, name, wrap=lambda part: {"highest": hi, "traces": part})
+    out[name] = ("rejected (DRIFT at citation / field" + "; ".join(sorted({d[1] for d in drifts})) + ")") if drifts else "accepted"
 print(json.dumps(out, indent=1))
 json.dump(out, open("/verif/selftest/binding_demo.json", "w"), indent=1)
